@@ -302,7 +302,19 @@ pub fn run(prop: &str, tier: &str) -> i32 {
                 let s = { q.lock().unwrap().pop() };
                 let Some(s) = s else { break };
                 let r = run_shard(&p, &s, &ti, &me);
-                merge(&mut t.lock().unwrap(), r);
+                let mut tg = t.lock().unwrap();
+                merge(&mut tg, r);
+                // every hang costs a whole shard timeout: after three of them the verdict (violation)
+                // is settled, so the remaining shards are not started and the run is reported as capped
+                let hangs = tg.viols.iter().filter(|v| v["attrs"]["hang"].as_str() == Some("1")).count();
+                if hangs >= 3 {
+                    let mut qg = q.lock().unwrap();
+                    if !qg.is_empty() {
+                        tg.capped = true;
+                        tg.machinery.push(format!("stopped early after {hangs} hanging shards; {} shards not started", qg.len()));
+                        qg.clear();
+                    }
+                }
             }
         }));
     }
